@@ -77,6 +77,8 @@ type Recorder struct {
 	// ProbeSlots: before every StateTransition whose slot processing is non-trivial (epoch boundary or
 	// several slots), also run common.ProcessSlots on a copy and log it as a Probe event.
 	ProbeSlots bool
+
+	unvalidated func() (*absstate.State, bool)
 }
 
 func New(out io.Writer) *Recorder {
